@@ -191,7 +191,7 @@ func (x *Exec) next(st *State, fr *Frame, b *ssa.BasicBlock, idx int, v *ssa.Nex
 	if rs == nil {
 		unsup("next without range state")
 	}
-	has := st.mapHas(rs.m)
+	has := st.mapHas(rs.m, rs.ktype, rs.vtype)
 	// exit path
 	st2 := x.fork(st)
 	x.counter++
@@ -202,7 +202,7 @@ func (x *Exec) next(st *State, fr *Frame, b *ssa.BasicBlock, idx int, v *ssa.Nex
 	// iteration path
 	kk := st.freshTyped("k", rs.ktype)
 	st.assume(And(Neq(rs.m, TInt(0)), Sel(has, kk), Not(Sel(rs.visited, kk))))
-	val := Sel(st.mapVal(rs.m, rs.vtype), kk)
+	val := Sel(st.mapVal(rs.m, rs.ktype, rs.vtype), kk)
 	st.assumeLoaded(val, rs.vtype)
 	nrs := *rs
 	nrs.visited = Sto(rs.visited, kk, TTrue)
@@ -251,7 +251,7 @@ func (x *Exec) rangeCall(st *State, m Term, kt, vt types.Type, fval Val, k func(
 	x.havocClosureWrites(st, clo)
 	x.havocLocs(st, fr, spec.Modifies, nil)
 	visited := st.fresh("visited", ArrSort(SI, SB))
-	has := st.mapHas(m)
+	has := st.mapHas(m, kt, vt)
 	x.counter++
 	q := Term{fmt.Sprintf("q.k!%d", x.counter), SI}
 	st.assume(Forall([]Term{q}, Imp(Sel(visited, q), Sel(has, q))))
@@ -269,7 +269,7 @@ func (x *Exec) rangeCall(st *State, m Term, kt, vt types.Type, fval Val, k func(
 	// iteration path
 	kk := st.freshTyped("k", kt)
 	st.assume(And(Sel(has, kk), Not(Sel(visited, kk))))
-	val := Sel(st.mapVal(m, vt), kk)
+	val := Sel(st.mapVal(m, kt, vt), kk)
 	st.assumeLoaded(val, vt)
 	x.inline(st, clo.Fn, []Val{kk, val}, clo.Bind, func(st2 *State, res Val) {
 		cont := res.(Term)
